@@ -331,7 +331,7 @@ def systemP : P (SystemDecl Float) := do
   let gas ← many ng speciesDeclP
   let nph ← nat
   let phases ← many nph do
-    let pname ← tok; let k ← nat
+    let pname ← tok; let _objname ← tok; let k ← nat   -- the Phase object's own name plays no role
     let sp ← many k speciesDeclP
     pure (pname, sp)
   pure { gas, phases }
@@ -513,6 +513,17 @@ def forcingFlatCase : P String := do
     let out := t.addForcingFlat L ncell nrx ns (toFlat nrx k) (toFlat ns y) (toFlat ns f0)
     pure s!"forcingflat f={showFs out.toList}"
 
+/-- `NormalizedError` and `IsConverged` on given matrices -/
+def normCase : P String := do
+  let L ← nat; let ncell ← nat; let ns ← nat
+  let atol ← flts ns; let rtol ← flt
+  let y ← flts (ncell * ns); let yn ← flts (ncell * ns); let er ← flts (ncell * ns)
+  let small ← flt
+  let Y := matOf ncell ns y; let Yn := matOf ncell ns yn; let E := matOf ncell ns er
+  let e := normalizedError floatOps floatConsts L ns atol.toArray rtol Y Yn E
+  let conv := beIsConverged floatOps small atol.toArray rtol E Yn
+  pure s!"norm e={showF e} conv={if conv then 1 else 0}"
+
 def runLine2 (line : String) : String :=
   let toks := (line.trimAscii.toString.splitOn " ").filter (· != "")
   match toks with
@@ -524,6 +535,7 @@ def runLine2 (line : String) : String :=
     | "rates" => (ratesCase.run rest).1
     | "hist" => (histCase.run rest).1
     | "forcingflat" => (forcingFlatCase.run rest).1
+    | "norm" => (normCase.run rest).1
     | _ => runLine line
 
 end Micm.Driver
